@@ -23,9 +23,33 @@ func (t Tok) String() string { return t.K + "/" + t.ID }
 type ErrTok struct {
 	K  string
 	ID string
+	// W: the error wraps a well-known sentinel, as the errors of real builders do ("" none, canceled,
+	// deadline, notfound, expired): the library must treat it like any other builder error.
+	W string
 }
 
-func (e ErrTok) Error() string { return "errtok:" + e.K + "/" + e.ID }
+func (e ErrTok) Error() string {
+	if e.W != "" {
+		return "errtok:" + e.K + "/" + e.ID + "(" + e.W + ")"
+	}
+
+	return "errtok:" + e.K + "/" + e.ID
+}
+
+func (e ErrTok) Unwrap() error {
+	switch e.W {
+	case "canceled":
+		return context.Canceled
+	case "deadline":
+		return context.DeadlineExceeded
+	case "notfound":
+		return cache.ErrNotFound
+	case "expired":
+		return cache.ErrExpired
+	}
+
+	return nil
+}
 
 // TTLCall is one WithTTL(ctx, ttl, update) call a builder makes.
 type TTLCall struct {
@@ -77,8 +101,10 @@ type FOOp struct {
 	BuildSleepNs int64 `json:"build_sleep_ns,omitempty"`
 	// BuildEqual: the builder returns a value equal to the pre-loaded one (the source has not changed);
 	// only used by oracles that tell writes apart by position, not by value.
-	BuildEqual bool      `json:"build_equal,omitempty"`
-	BuildTTLs  []TTLCall `json:"build_ttls,omitempty"`
+	BuildEqual bool `json:"build_equal,omitempty"`
+	// BuildErrKind: what the builder's error wraps when it fails (see ErrTok.W).
+	BuildErrKind string    `json:"build_err_kind,omitempty"`
+	BuildTTLs    []TTLCall `json:"build_ttls,omitempty"`
 
 	// Caller behaviour after Get returned.
 	Cancel    string `json:"cancel,omitempty"`     // "", before (ctx already cancelled), after (cancel after return), deadline (deadline passes later)
@@ -99,6 +125,10 @@ type FOFaults struct {
 // FOScenario is the Failover engine's part of a scenario.
 type FOScenario struct {
 	API string `json:"api"` // failover | failoverOf
+	// WrapBackendErrs: the backend handed to the library is a decorator that wraps every read error
+	// (fmt.Errorf("...: %w")), as instrumenting / tracing wrappers do; expired items stay reachable through
+	// errors.As only.
+	WrapBackendErrs bool `json:"wrap_backend_errs,omitempty"`
 	// ValRep: representation of values handed to the untyped API ("" token struct, slice, map, box, ptr).
 	ValRep       string   `json:"val_rep,omitempty"`
 	Backend      string   `json:"backend"` // sharded | syncmap | shardedOf
@@ -269,6 +299,37 @@ func (a genAPI) ErrorsRead(ctx context.Context, key []byte) (error, error) {
 	return a.f.Errors.Read(ctx, key)
 }
 
+// anyAPI: the generic frontend instantiated with V = interface{} over an untyped backend (the only way
+// to put FailoverOf in front of SyncMap or ShardedMap): expired items reach it as the non-generic
+// ErrWithExpiredItem, values in any representation.
+type anyAPI struct {
+	f   *cache.FailoverOf[interface{}]
+	rep string
+}
+
+func (a anyAPI) Get(ctx context.Context, key []byte, build func(ctx context.Context) (Tok, error)) (interface{}, error) {
+	v, err := a.f.Get(ctx, key, func(ctx context.Context) (interface{}, error) {
+		t, err := build(ctx)
+		if err != nil {
+			return nil, err
+		}
+
+		return wrapVal(a.rep, t), nil
+	})
+
+	return unwrapVal(v), err
+}
+func (a anyAPI) KeyLockNames() []string { return a.f.VerifKeyLockNames() }
+func (a anyAPI) Stop()                  { a.f.VerifStop() }
+func (a anyAPI) HasErrors() bool        { return a.f.Errors != nil }
+func (a anyAPI) ErrorsWrite(ctx context.Context, key []byte, err error) {
+	_ = a.f.Errors.Write(ctx, key, err)
+}
+
+func (a anyAPI) ErrorsRead(ctx context.Context, key []byte) (error, error) {
+	return a.f.Errors.Read(ctx, key)
+}
+
 // foRun is the state of one FO run.
 type foRun struct {
 	e  *env
@@ -436,6 +497,10 @@ func (w beWrap) Read(ctx context.Context, k []byte) (interface{}, error) {
 		return raw, nil // the library gets the stored representation, the call log the token
 	}
 
+	if err != nil && w.r.sc.WrapBackendErrs {
+		err = fmt.Errorf("decorated backend: %w", err)
+	}
+
 	return v, err
 }
 
@@ -449,17 +514,14 @@ type beWrapOf struct {
 }
 
 func (w beWrapOf) Read(ctx context.Context, k []byte) (Tok, error) {
-	var typedErr error
-
 	v, err := w.r.beRead(ctx, k, func() (interface{}, error) {
 		t, err := w.real.Read(ctx, k)
-		typedErr = err
 
 		return t, err
 	})
 	if err != nil {
-		if typedErr != nil && err == typedErr {
-			return Tok{}, err
+		if w.r.sc.WrapBackendErrs {
+			err = fmt.Errorf("decorated backend: %w", err)
 		}
 
 		return Tok{}, err
@@ -639,6 +701,23 @@ func (r *foRun) construct() {
 			r.api = plainAPI{f: f, rep: sc.ValRep}
 		}
 
+		e.cleanup = append(e.cleanup, r.stopAPI)
+
+		return
+	}
+
+	if sc.API == "failoverOfAny" {
+		if r.be.plain == nil {
+			panic("failoverOfAny needs an untyped backend")
+		}
+
+		f := cache.NewFailoverOf[interface{}](cache.FailoverConfigOf[interface{}]{
+			Name: "fo", Backend: beWrap{r: r, real: r.be.plain},
+			FailedUpdateTTL: dur(sc.Cfg.FailedUpdateTTLNs), UpdateTTL: dur(sc.Cfg.UpdateTTLNs),
+			SyncUpdate: sc.Cfg.SyncUpdate, SyncRead: sc.Cfg.SyncRead, MaxStaleness: dur(sc.Cfg.MaxStalenessNs),
+			FailHard: sc.Cfg.FailHard, Logger: logger, Stats: stats, ObserveMutability: sc.Cfg.ObserveMutability && stats != nil,
+		}.Use)
+		r.api = anyAPI{f: f, rep: sc.ValRep}
 		e.cleanup = append(e.cleanup, r.stopAPI)
 
 		return
@@ -960,7 +1039,7 @@ func (r *foRun) builder(rec *opRec, ctx context.Context) (Tok, error) {
 
 	if op.BuildFail {
 		b.fail = true
-		b.err = ErrTok{K: rec.key, ID: "b" + rec.id()[1:]}
+		b.err = ErrTok{K: rec.key, ID: "b" + rec.id()[1:], W: op.BuildErrKind}
 		e.out.fault("build_err")
 		e.logf("build exit %s key=%q -> error %v", rec.id(), rec.key, b.err)
 
